@@ -204,7 +204,14 @@ class PVLParser(object):
         """Converts the string, *s* to a PVLModule."""
         self.doc = s
         tokens = self.lexer(s, g=self.grammar, d=self.decoder)
-        module = self.parse_module(tokens)
+        try:
+            module = self.parse_module(tokens)
+        except StopIteration:
+            # The text ended in the middle of a statement (a block
+            # that was not closed, a missing Block-Name, etc.).
+            raise ParseError(
+                "Ran out of tokens before the PVL-text was complete."
+            )
         module.errors = sorted(self.errors)
         return module
 
